@@ -3,10 +3,13 @@ deferred-call queue) on a harness-owned clock.  No crosshair dependency.
 
 Stubs (DESIGN.md section 3, each is part of the claim):
 * bacpypes.task._time      -> World.clock (non-decreasing; processing takes zero time)
-* bacpypes.task._Trigger   -> None (the pipe only wakes asyncore.loop; no sockets here)
-* asyncore.loop(timeout)   -> advances World.clock by `timeout` (what select() would sleep),
-                              by nothing when deferred calls are pending (the trigger would
-                              wake select at once); stops the loop at the deadline / when idle
+* bacpypes.task._Trigger   -> _Wake: set() only records "woken" (the real one writes to a
+                              pipe so that select() returns at once; no sockets here)
+* asyncore.loop(timeout)   -> returns at once when the trigger was set since the last call
+                              (install_task / suspend_task / deferred / stop all set it: the
+                              loop must recompute its delta, exactly as with the real pipe);
+                              otherwise advances World.clock by `timeout` (what select() would
+                              sleep); stops the loop at the deadline / when idle
 * singletons are reset per World (a new process would see exactly this)
 
 The test suite's tests/time_machine.py is deliberately not used: it overrides
@@ -23,6 +26,22 @@ HUGE = 1.0e9     # `spin` handed to core.run: "nothing scheduled" shows up as ti
 _current = None
 
 
+class _Wake:
+    """stand-in for task._Trigger (WaitableEvent on a pipe)"""
+
+    def __init__(self):
+        self.woken = False
+
+    def set(self):
+        self.woken = True
+
+    def clear(self):
+        self.woken = False
+
+    def isSet(self):
+        return self.woken
+
+
 def _now():
     return _current.clock if _current is not None else 0.0
 
@@ -33,7 +52,7 @@ class World:
         _current = self
         self.clock = t0
         self.loops = 0
-        task._Trigger = None
+        task._Trigger = _Wake
         task._time = _now
         TaskManager._singleton_instance = None
         task._task_manager = None
@@ -59,8 +78,12 @@ class World:
             if state["n"] > max_loops:
                 core.running = False
                 raise RuntimeError("virtual loop did not quiesce")
+            wake = w.tm.trigger
+            if wake is not None and wake.woken:
+                wake.woken = False
+                return                      # select() woken at once, no time passes
             if core.deferredFns:
-                return                      # woken at once, no time passes
+                return
             if timeout >= HUGE:             # nothing scheduled
                 if until is not None and w.clock < until:
                     w.clock = until
